@@ -1,4 +1,4 @@
-From TN Require Export Harness.HBase Sem.Fast Model.Dot Model.Tools.
+From TN Require Export Harness.HBase Sem.Fast Model.Dot Model.Tools Model.Hsum.
 From Coq Require Import QArith.
 
 Section H.
@@ -8,7 +8,8 @@ Variable cmp : K -> K -> bool.
 Inductive op6 :=
 | ODot (a b : tensor K) (k : nat)                       (* tn.dot(a, b, k) *)
 | OSum (a : tensor K) (dims : list nat)                 (* tn.sum(a, dim=dims): values only *)
-| OWsum (a : tensor K) (dw : list (nat * list K)).      (* mean: mode d weighted by w (already normalised) *)
+| OWsum (a : tensor K) (dw : list (nat * list K))       (* mean: mode d weighted by w (already normalised) *)
+| OHsum (ts : list (tensor K)).                         (* tn.hadamard_sum(ts): sum of the entrywise product *)
 
 Record case := mkCase { c_op : op6; c_shape : list nat; c_dense : list K }.
 
@@ -35,6 +36,7 @@ Definition run (o : op6) : list nat * list K :=
   | OWsum a dw =>
       let cs := fold_left (fun cs (p : nat * list K) => wsum_net (fst p) (fun j => nth j (snd p) (r0 K)) cs) dw (sem a) in
       (sshape cs, dense_of (eval_l cs) (sshape cs))
+  | OHsum ts => ([], match hsum_net (map sem ts) with Some v => [v] | None => [] end)
   end.
 
 (* shapes are compared up to removal of the reduced (size-1) modes: values in row-major order coincide *)
@@ -52,5 +54,5 @@ Definition caseT := (case ZO + case QO)%type.
 Definition cZ (c : case ZO) : caseT := inl c.
 Definition cQ (c : case QO) : caseT := inr c.
 Definition check_any (c : caseT) : bool := match c with inl z => checkZ z | inr q => checkQ q end.
-Definition zDot := @ODot ZO. Definition zSum := @OSum ZO. Definition qWsum := @OWsum QO.
+Definition zDot := @ODot ZO. Definition zSum := @OSum ZO. Definition qWsum := @OWsum QO. Definition zHsum := @OHsum ZO.
 Definition mkZ := mkCase ZO. Definition mkQ := mkCase QO.
